@@ -6,8 +6,8 @@ EXPLANATION = ("Decides the error-discipline clauses of C09, not schedule indepe
                "whose Err arm ignores the payload and continues, an io::Result whose Err edge reaches Ok without a kind() test) unless listed by "
                "exact key with a reason; writers whose Drop flushes (LineWriter, Base64Encoder) are finished explicitly with the error propagated "
                "on every path to Ok; reader state machines never return Ok from their Error state; the fill loops return Ok only after a "
-               "successful source call; TeeWriter hashes exactly what the sink accepted. Not decided: independence of read/consume schedules, "
-               "`read` returning 0 only at end of stream.")
+               "successful source call; TeeWriter hashes exactly what the sink accepted. staged readers return a possibly empty stage buffer only under an emptiness guard or after a reviewed fill step (zero means end). "
+               "Not decided: independence of read/consume schedules.")
 ASSUMPTIONS = ["trait-object and generic callees behave as their trait contract says", "dependency crates propagate their own I/O errors"]
 
 
@@ -21,6 +21,7 @@ def run(ctx):
     c03.sticky_errors(ctx, P)
     stream.tee_writer(ctx, P)
     stream.fill_loops(ctx, P)
+    stream.zero_means_end(ctx, P)
     # every consumer path of Message ends through the trailing-data check (read / read_to_end / fill_buf agree)
     from rules import c03
     c03.trailing(ctx, P)
